@@ -1,6 +1,9 @@
 (* C03 Exec: checkers evaluated by vm_compute on (route table, requests, what the Go router did). *)
 From Coq Require Import String.
 From God Require Import Base.Prelude C03.Path C03.Spec C03.Model.
+
+Definition to_wopt (o : sopt) : wopt :=
+  match o with SNotFound b => WNotFound b | SNotAllowed => WNotAllowed | SCors => WCors | SRouter => WRouter end.
 Local Open Scope N_scope.
 
 Record robs := mkobs {
@@ -21,8 +24,9 @@ Record eobs := mkeobs {
   e_slices : list (list (string * list N) * list (string * list N));
                                            (* every caller slice: as given, as inspected after start-up *)
   e_calls : list (string * list N * nat);
-  e_cors : bool                            (* server created with WithCors / WithCustomCors; then o_nf = 1 iff the
-                                              (replaced) not-allowed handler answered the request *)
+  e_sopts : list sopt                      (* NewServer options in order ([] for via engine).  For engine cases
+                                              o_nf = calls of the custom not-found handler + 10 * calls of the
+                                              custom not-allowed handler + 100 if cors.NotAllowedHandler answered *)
 }.
 
 (* one step of a router history with what was observed: a registration (error class, path.Clean of
@@ -109,16 +113,19 @@ Fixpoint all2 {A B} (f : A -> B -> bool) (l1 : list A) (l2 : list B) : bool :=
   | _, _ => false
   end.
 
-(* with CORS: OPTIONS -> 204 without handler; NotAllowed -> 404 without Allow (cors.NotAllowedHandler) *)
-Definition model_req_cors (tb : table) (mp : string * list N) (o : robs) : bool :=
+(* a server configured by NewServer options: who answers, as observed on the wire *)
+Definition model_req_srv (cf : sconf) (tb : table) (mp : string * list N) (o : robs) : bool :=
   let (m, p) := mp in
   match o_path o with Some q => bytes_eqb q p | None => true end &&
   bytes_eqb (clean p) (match o_clean o with Some q => q | None => p end) &&
-  match cors_serve tb m p with
-  | CPreflight => N.eqb (o_status o) 204 && is_nil (o_hids o) && is_nil (o_allow o)
-  | CRouted (Hit rs) => N.eqb (o_status o) 200 && existsb (hit_ok o) rs && is_nil (o_allow o) && Nat.eqb (o_nf o) 0
-  | CRouted (NotAllowed _) => N.eqb (o_status o) 404 && is_nil (o_hids o) && is_nil (o_allow o) && Nat.eqb (o_nf o) 1
-  | CRouted NotFound => N.eqb (o_status o) 404 && is_nil (o_hids o) && is_nil (o_allow o) && Nat.eqb (o_nf o) 0
+  match server_serve cf tb m p with
+  | SPreflight => N.eqb (o_status o) 204 && is_nil (o_hids o) && is_nil (o_allow o) && Nat.eqb (o_nf o) 0
+  | SHandler rs => N.eqb (o_status o) 200 && existsb (hit_ok o) rs && is_nil (o_allow o) && Nat.eqb (o_nf o) 0
+  | SDefault405 ms => N.eqb (o_status o) 405 && is_nil (o_hids o) && set_eqb ms (o_allow o) && Nat.eqb (o_nf o) 0
+  | SCustomNotAllowed => N.eqb (o_status o) 405 && is_nil (o_hids o) && is_nil (o_allow o) && Nat.eqb (o_nf o) 10
+  | SCorsNotAllowed => N.eqb (o_status o) 404 && is_nil (o_hids o) && is_nil (o_allow o) && Nat.eqb (o_nf o) 100
+  | SCustomNotFound => N.eqb (o_status o) 404 && is_nil (o_hids o) && is_nil (o_allow o) && Nat.eqb (o_nf o) 1
+  | SDefault404 => N.eqb (o_status o) 404 && is_nil (o_hids o) && is_nil (o_allow o) && Nat.eqb (o_nf o) 0
   end.
 
 (* the Handle calls the engine makes: every route in order, up to and including the first error *)
@@ -154,7 +161,7 @@ Definition model_ok (c : case) : bool :=
       forallb (fun ba => list_eqb mp_eqb (fst ba) (snd ba)) (e_slices eo) &&
       Nat.eqb (err_code e) (e_err eo) &&
       list_eqb call_eqb (model_calls [] rs) (e_calls eo) &&
-      all2 (if e_cors eo then model_req_cors tb else model_req false false tb) (c_reqs c) (c_res c)
+      all2 (model_req_srv (server_conf (e_sopts eo)) tb) (c_reqs c) (c_res c)
   | None =>
       match model_regs (c_tree c) [] 0 (c_regs c) (c_errs c) (c_rclean c) with
       | Some tb => all2 (model_req (c_tree c) (c_nf c) tb) (c_reqs c) (c_res c)
@@ -200,12 +207,13 @@ Definition vars_ok (pat q : list seg) (ov : list (seg * seg)) : bool :=
 Fixpoint nodup_str (l : list string) : list string :=
   match l with [] => [] | a :: r => if mem_str a r then nodup_str r else a :: nodup_str r end.
 
-Definition spec_req_gen (cors nf : bool) (acc : list route) (mp : string * list N) (o : robs) : bool :=
+Definition spec_req_gen (w_nf : bool) (w_na : nat) (w_cors : bool) (acc : list route) (mp : string * list N) (o : robs) : bool :=
   let (m, p0) := mp in
+  if w_cors && String.eqb m "OPTIONS" then N.eqb (o_status o) 204 && is_nil (o_hids o) && Nat.eqb (o_nf o) 0 else
   let p := match o_path o with Some q => q | None => p0 end in   (* the request path is r.URL.Path *)
   match req_segs (clean p) with
   | None =>  (* the cleaned path has no segments: nothing matches *)
-      N.eqb (o_status o) 404 && is_nil (o_hids o) && Nat.eqb (o_nf o) (if nf then 1 else 0)
+      N.eqb (o_status o) 404 && is_nil (o_hids o) && Nat.eqb (o_nf o) (if w_nf then 1 else 0)
   | Some q =>
       let ms := matches acc m q in
       match ms with
@@ -223,23 +231,19 @@ Definition spec_req_gen (cors nf : bool) (acc : list route) (mp : string * list 
                                (nodup_str (map r_method acc)) in
           is_nil (o_hids o) &&
           match others with
-          | [] => N.eqb (o_status o) 404 && Nat.eqb (o_nf o) (if nf then 1 else 0)
-          | _ => if cors
-                 (* WithCors installs cors.NotAllowedHandler through the router's public override: the
-                    router must hand the request to it (observed: o_nf = 1), its answer is 404 *)
-                 then N.eqb (o_status o) 404 && Nat.eqb (o_nf o) 1
-                 else N.eqb (o_status o) 405 && set_eqb others (o_allow o)
+          | [] => N.eqb (o_status o) 404 && Nat.eqb (o_nf o) (if w_nf then 1 else 0)
+          | _ => match w_na with
+                 | 0 => N.eqb (o_status o) 405 && set_eqb others (o_allow o) && Nat.eqb (o_nf o) 0
+                 (* a configured not-allowed handler (custom, or the one WithCors installs) answers, exactly once *)
+                 | 1 => Nat.eqb (o_nf o) 10
+                 | _ => N.eqb (o_status o) 404 && Nat.eqb (o_nf o) 100
+                 end%nat
           end
       end
   end.
 
-Definition spec_req : bool -> list route -> string * list N -> robs -> bool := spec_req_gen false.
+Definition spec_req (nf : bool) : list route -> string * list N -> robs -> bool := spec_req_gen nf 0 false.
 
-(* with CORS enabled: an OPTIONS request is a preflight (204, no handler); any other request - with
-   or without Origin / Access-Control-Request-* headers - is answered as without CORS *)
-Definition spec_req_cors (acc : list route) (mp : string * list N) (o : robs) : bool :=
-  if String.eqb (fst mp) "OPTIONS" then N.eqb (o_status o) 204 && is_nil (o_hids o)
-  else spec_req_gen true false acc mp o.
 
 (* tree level: the matcher statement applies when routes and request have the cleaned shape *)
 Definition spec_req_tree (acc : list route) (mp : string * list N) (o : robs) : bool :=
@@ -293,7 +297,8 @@ Definition spec_engine (c : case) (eo : eobs) : bool :=
   | Some _ => negb (Nat.eqb (e_err eo) 0) && all2 (spec_req_sound acc) (c_reqs c) (c_res c)
   | None => if Nat.eqb (e_err eo) 0
             then same_patterns acc (e_calls eo) &&
-                 all2 (if e_cors eo then spec_req_cors acc else spec_req false acc) (c_reqs c) (c_res c)
+                 (let w := map to_wopt (e_sopts eo) in
+                  all2 (spec_req_gen (want_nf w) (want_na w) (want_cors w) acc) (c_reqs c) (c_res c))
             else false   (* every added route is acceptable, yet the start-up failed: the routes are not served *)
   end.
 
@@ -333,3 +338,9 @@ Definition bs (s : string) : list N :=
 Definition mt (i : nat) : string :=
   nth i ["DELETE"; "GET"; "HEAD"; "OPTIONS"; "PATCH"; "POST"; "PUT"; "get"; "FOO"; ""; "CONNECT"; "TRACE"; "GET "; "Post"]%string "?"%string.
 Definition xcleans (regs : list (string * list N)) : list (list N) := map (fun r => clean (snd r)) regs.
+
+(* NewServer options for the encoder *)
+Definition xnf (custom : bool) : sopt := SNotFound custom.
+Definition xna : sopt := SNotAllowed.
+Definition xcors : sopt := SCors.
+Definition xrouter : sopt := SRouter.
